@@ -169,9 +169,10 @@ static ares_status_t parse_sort(ares_buf_t *buf, struct apattern *pat)
     }
 
     if (ares_str_isnum(maskstr)) {
-      /* Numeric mask */
+      /* Numeric mask, at most 3 digits so atoi() cannot wrap a huge number
+       * into the valid range */
       int mask = atoi(maskstr);
-      if (mask < 0 || mask > 128) {
+      if (ares_strlen(maskstr) > 3 || mask < 0 || mask > 128) {
         return ARES_EBADSTR;
       }
       if (pat->addr.family == AF_INET && mask > 32) {
